@@ -129,6 +129,12 @@ where
         }
     }
 
+    /// Verification hook: public constructor for harness crates (only compiled by kani-compiler).
+    #[cfg(kani)]
+    pub fn verif_new(stream: W, presentation_context_id: u8, max_pdu_length: u32) -> Self {
+        Self::new(stream, presentation_context_id, max_pdu_length)
+    }
+
     /// Declare to have finished sending P-Data fragments,
     /// thus emitting the last P-Data fragment PDU.
     ///
@@ -474,6 +480,12 @@ pub mod non_blocking {
                 buffer,
                 state: WriteState::Ready,
             }
+        }
+
+        /// Verification hook: public constructor for harness crates (only compiled by kani-compiler).
+        #[cfg(kani)]
+        pub fn verif_new(stream: W, presentation_context_id: u8, max_pdu_length: u32) -> Self {
+            Self::new(stream, presentation_context_id, max_pdu_length)
         }
 
         /// Declare to have finished sending P-Data fragments,
